@@ -57,6 +57,21 @@ def run(chk):
     for name, cls in sorted(panic_classes(rows).items()):
         chk.finding("%s:new:panic@%s" % (name, cls), {"stage": "MC+A", "subject": name, "class": cls,
                                                       "what": "the constructor panics (dev profile) instead of returning Err"})
+    # text parsing of parameters never panics: Parse.tla's enumerated texts (canonical, single edits, short strings)
+    prow = []
+    for cfg in ("MC_Parse_canon.cfg", "MC_Parse_edit.cfg") + (() if quick else ("MC_Parse_short.cfg",)):
+        pr = tlc("MC_Parse", cfg, workers=1, timeout=900)
+        if pr.error or pr.violation:
+            raise ToolError("%s: %s" % (cfg, pr.error or pr.violation))
+        chk.add_tlc(cfg, pr, {"what": "texts for MA::from_str / Source::from_str with the grammar's verdict"})
+        prow += [p for t, p in pr.printed if t == "ROW"]
+    pf = os.path.join(wd, "texts.ndjson")
+    write_ndjson(pf, prow)
+    for m in lines_of(run_harness(yv, ["candle-replay", pf], timeout=1200)):
+        # a wrong parse result is C18's business; a panic on any text is C10's
+        if m.get("kind") == "mismatch" and m["key"].endswith(":panic"):
+            chk.finding(m["key"], {"stage": "A:texts", "ctx": m.get("ctx")})
+    chk.stage("A:texts", texts=len(prow))
     chk.stage("A", rows=len(rows), constructed=summ["extra"]["constructed"], comparisons=summ["checked"])
     chk.cov["replayed_behaviours"] += summ["extra"]["constructed"]
     chk.cov["traces_validated_against_impl"] += summ["extra"]["constructed"]
